@@ -329,6 +329,9 @@ def run(ctx, rep):
     from .. import guards
 
     guards.rules(ctx, rep)  # a partial-initialisation guard is a second destroyer of payload values: never after the owner exists, never ahead of the writes
+    from . import c12 as _c12
+
+    _c12.union_dispatch(ctx, rep)  # ArcUnion owners are counted on the block of the Arc they were made from (tag arithmetic, per-variant types)
     balance.rule_bal(ctx, rep)
     balance.rule_unw(ctx, rep)
     rule_funnel(ctx, rep)
